@@ -10,7 +10,8 @@ PATHS = ("docs_for_query", "query.docs", "unlimited", "limited", "unscored", "so
 
 
 def build_cases(run, rng, nworlds, nqueries, ndocs=(3, 7), depth=2, nletters=2, blocklimit=None,
-                paths=PATHS, scored_only=False, ops=None, storage=None, cmp="members", limits=(1, 2, 3)):
+                paths=PATHS, scored_only=False, ops=None, storage=None, cmp="members", limits=(1, 2, 3),
+                kinds=None, alt=False):
     cases, meta = [], []
     for wi in range(nworlds):
         n = rng.randrange(ndocs[0], ndocs[1] + 1)
@@ -28,7 +29,9 @@ def build_cases(run, rng, nworlds, nqueries, ndocs=(3, 7), depth=2, nletters=2, 
                     aq = world.rand_query(rng, rng.randrange(0, depth + 1), nletters=nletters,
                                           scored_only=scored_only, ops=ops)
                     q = world.to_query(aq)
-                    obs = qobs.obs_paths(s, q, paths, limits=limits, cmp=cmp)
+                    obs = qobs.obs_paths(s, q, paths, limits=limits, cmp=cmp, alt=alt)
+                    if kinds:
+                        obs = [o for o in obs if o["kind"] in kinds]
                     qs.append({"q": aq, "obs": obs})
                     run.count(len(obs))
                 cases.append({"idx": idx, "qs": qs})
@@ -77,6 +80,14 @@ def classify(run, cases, meta, rejects):
                                and "limit=" in cases[ci]["qs"][qi]["obs"][r[2]]["path"])]
             if not others:
                 classes[(ci, qi, oi)] = "limited-count-undercounts"
+    # (3) a limited search loses hits because WrappingMatcher.replace() hands its threshold
+    # unscaled to the child: the same search with that one method corrected gives exactly
+    # what the specification expects
+    for ci, qi, oi, exp in rejects:
+        o = cases[ci]["qs"][qi]["obs"][oi]
+        if (ci, qi, oi) not in classes and o["kind"] == "ranked" and "alt" in o \
+                and [list(h) for h in exp.get("hits", [])] == o["alt"] and o["alt"] != o["hits"]:
+            classes[(ci, qi, oi)] = "wrapping-replace-unscaled"
     return classes
 
 
@@ -99,8 +110,9 @@ def report(run, pid, cases, meta, rejects, check):
         for qi, qo in enumerate(cs["qs"]):
             if (ci, qi) not in bad:
                 # non-trivial: the query matches something but not everything
-                ids = [o for o in qo["obs"] if o["kind"] == "ids"]
-                if ids and 0 < len(ids[0]["ids"]) < len(cs["idx"]["docs"]):
+                ids = [o.get("ids", o.get("hits")) for o in qo["obs"]
+                       if o["kind"] == "ids" or (o["kind"] == "ranked" and o["k"] == 0)]
+                if ids and 0 < len(ids[0]) < len(cs["idx"]["docs"]):
                     run.nontriv((ci, qi, qobs.shape(qo["q"])))
     if cases:
         run.sample({"query": cases[0]["qs"][0]["q"], "observations": cases[0]["qs"][0]["obs"][:3],
